@@ -12,10 +12,12 @@ RULE = ('(a, direct) a seeded catalogue composes hostile Python values as source
         '(walked by an own parser) may only use type codes app/common/marshal.ts parses, and encode(decode(result)) must have '
         'the same form. (b, transport) the same texts (plus records / record sets / cells of a live document) are formula '
         'bodies of columns of 12 column types in a real engine process: AddColumn, fetch_table with and without formulas, '
-        'get_formula_error, formula -> data conversion, undo, RemoveColumn, undo; and hostile *encoded* forms (bad arity, '
+        'get_formula_error, formula -> data conversion, undo, RemoveColumn, undo (one formula in eight raises a hostile exception '
+        'instead); and hostile *encoded* forms (bad arity, '
         'unknown codes, 2**40, deep nesting, lone surrogates) are written to data cells; wrappers inside the engine record '
         'whether Engine.apply_user_actions returned and whether Sandbox._send_to_js could marshal the reply: a reply that '
-        'fails in the transport, or fails after the engine-level call returned, is a violation. (c, in situ) the '
+        'fails in the transport, or fails after the engine-level call returned, is a violation; the bytes the transport really '
+        'produces are walked too (a proxy for the name `marshal` inside sandbox.py). (c, in situ) the '
         'encode_object contract judges every top-level encode_object call made by the engine during (b) and during generic '
         'random histories with the same oracle. A case = one value (a), one engine call (b) or one bundle (c); non-trivial = '
         'the value is not a bare primitive / the call carried a generated value / the bundle succeeded with stored actions; '
@@ -52,12 +54,6 @@ def plan(tier, seed):
 
 # ----------------------------------------------------------------------------------------------
 # (a) direct
-def make_namespace():
-  ns = {}
-  exec('import objtypes, moment, datetime', ns)      # pylint: disable=exec-used
-  return ns
-
-
 def build_value(V, case):
   """Execute the case text; returns (ok, value)."""
   ns = {}
@@ -209,7 +205,7 @@ class Transport(object):
                       'failed with %s while building the reply; %s' % (what, e.cls, detail['args'][:400]), detail)
         return ('lost', 'reply_lost_after_apply')
       acc.count('calls_rejected_by_engine')
-      acc.seen('rejection_classes', e.cls)
+      acc.seen('rejection_classes', '%s:%s' % (name, e.cls))
       return ('rejected', e.cls)
 
 
